@@ -96,7 +96,7 @@ def run_executables(chk, work):
         d = os.path.join(work, "exe%d" % i)
         gen = [gen_stat_case, gen_reupdate_case, gen_stat_bonded_case,
                gen_reupdate_case, gen_orientcorr_case,
-               gen_partial_rdf_case][i % 6]
+               gen_partial_rdf_case, gen_stat_h5md_case, gen_reupdate_case][i % 8]
         cases.append((d, gen(rng, d)))
     # reference runs (nt 1, asan)
     refs = vf.run_parallel([lambda d=d, c=c: run_exe(
@@ -131,7 +131,7 @@ def run_executables(chk, work):
     tsan_reports = 0
     events = 0
     for (fl, c, d, rd, nt, ds), r in zip(meta, results):
-        fam = "exe_%s_%s" % (c["kind"], fl)
+        fam = "exe_%s%s_%s" % (c["kind"], "_h5md_" + c["h5md"] if c.get("h5md") else "", fl)
         wit = {"kind": c["kind"], "opts": c["opts"], "nt": nt, "flavour": fl,
                "delay_seed": ds, "steps": c["steps"], "selected": c["selected"]}
         if not c["ref_ok"]:
@@ -188,6 +188,7 @@ def run_executables(chk, work):
 # ----------------------------------------------------------------------------
 import random
 import filecmp
+import subprocess
 
 SPCE = os.path.join(vf.REPO, "csg/src/tools/references/spce")
 EV = {5: "THREAD_CREATE", 6: "THREAD_BEGIN", 7: "THREAD_END", 8: "JOIN_REQ",
@@ -369,6 +370,41 @@ def gen_stat_bonded_case(rng, d):
             "ordered": True}
 
 
+_H5MD_COUNT = [0]
+
+
+def h5md_tool():
+    return vf.build_tool("gen_h5md", os.path.join(H, "tools", "gen_h5md.c"),
+                         "-I/usr/include/hdf5/serial -L/usr/lib/x86_64-linux-gnu/hdf5/serial -lhdf5_serial")
+
+
+def gen_stat_h5md_case(rng, d):
+    """csg_stat (ordered mode) on an H5MD trajectory (static or time dependent
+    box); the xml topology carries no box, so every worker's topology must get
+    the box from the trajectory reader. The H5MD reader sets no step: the
+    frame-identity monitors are skipped for these cases (no_step)."""
+    os.makedirs(d, exist_ok=True)
+    n = rng.randint(120, 300)
+    nfr = rng.choice([2, 3, 5, 8])
+    _H5MD_COUNT[0] += 1
+    mode = ["static", "timedep"][_H5MD_COUNT[0] % 2]  # both box kinds in every run
+    open(os.path.join(d, "topol.xml"), "w").write(
+        '<topology>\n  <h5md_particle_group name="atoms" />\n  <molecules>\n'
+        '    <molecule name="M" nmols="%d" nbeads="1">\n      <bead name="A" type="A" mass="1.0" q="0.0" />\n'
+        '    </molecule>\n  </molecules>\n</topology>\n' % n)
+    open(os.path.join(d, "settings.xml"), "w").write(
+        "<cg>\n <non-bonded>\n  <name>A-A</name>\n  <type1>A</type1>\n  <type2>A</type2>\n"
+        "  <min>0.0</min>\n  <max>1.2</max>\n  <step>0.05</step>\n </non-bonded>\n</cg>\n")
+    r = subprocess.run([h5md_tool(), os.path.join(d, "traj.h5"), str(nfr), str(n),
+                        "%.3f" % rng.uniform(2.8, 4.0), mode, str(rng.randint(1, 10**6))])
+    if r.returncode != 0:
+        raise vf.HarnessFailure("gen_h5md failed")
+    opts = ["--top", "../topol.xml", "--trj", "../traj.h5", "--options", "../settings.xml"]
+    steps = list(range(nfr))
+    return {"kind": "csg_stat", "frames": nfr, "steps": steps, "opts": opts, "imc": False,
+            "block": None, "selected": steps, "ordered": True, "no_step": True, "h5md": mode}
+
+
 def gen_orientcorr_case(rng, d):
     """csg_orientcorr (unordered mode) on the water-like system of gen_stat_case"""
     case = gen_stat_case(rng, d)
@@ -474,7 +510,11 @@ def check_event_log(path, case, nt):
                 v.append(("log/endevaluate-before-threads-ended",
                           "%d of %d ended" % (len(ended), created)))
     want = case["selected"]
-    if case["ordered"]:
+    if case.get("no_step"):
+        # the reader sets no step: frame identity cannot be observed, only the counts
+        if len(taken) != len(want):
+            v.append(("log/frame-count-differs", "taken %d frames, selected %d" % (len(taken), len(want))))
+    elif case["ordered"]:
         if taken != want:
             v.append(("log/frames-not-each-once-in-order",
                       "taken=%s want=%s" % (taken, want)))
